@@ -120,6 +120,42 @@ CHECKS["C07"] = dict(
     note="Trusted base: TLC; independent STL parser/encoder in harness/stlfam; float32 images compared as two 16-bit halves.",
     design="3/C07 and NOTES-objstl.md", technique="TLA+ record machine + TLC-generated inputs + TLC trace validation")
 
+CHECKS["C04"] = dict(
+    text=("PlyFormat.tla: PLY header/body grammar, Denote(file), the writer contract (header describes the body: counts, property "
+          "list, byte sizes; per-corner UVs through the index) and RoundTrip on corner views with 8-bit quantisation; TLC checks the "
+          "layout rules on the spec for small meshes x three encodings x writer option sets and generates the cases; real ply.Write "
+          "output is parsed by an independent parser and judged by TracePly.tla (WellFormedFile, Denote = source, encodings agree), "
+          "the real reader is judged against the TLC-computed denotation."),
+    note=("Trusted base: TLC; independent PLY parser/encoder in harness/plyfam; float32 fidelity on bit patterns. Open known findings: "
+          "a single 8-bit scalar loads raw from ASCII but normalised from binary (the one-line repair breaks an existing test that "
+          "pins the raw value)."),
+    design="3/C04 and NOTES-ply.md", technique="TLA+ format grammar + TLC-generated meshes/options + TLC trace validation")
+CHECKS["C08"] = dict(
+    text=("PlyFormat.tla Denote for third-party files: any property order, type aliases, recognised groups, extra properties, comments, "
+          "obj_info, CRLF, all list count/index types, triangle and quad faces; TLC generates header layouts and bodies (BFS small, "
+          "-simulate wide); an independent encoder writes them in ascii / little / big endian, the real reader loads them and "
+          "TracePly.tla compares with Denote."),
+    note=("Trusted base: TLC; independent encoder written from the PLY specification. Open known findings: ascii 8-bit scalar raw "
+          "(see C04) and groups whose members have different scalar types (documented as unsupported by the reader)."),
+    design="3/C08 and NOTES-ply.md", technique="TLA+ format grammar + TLC-generated files + TLC trace validation")
+CHECKS["C14"] = dict(
+    text=("RecFile.tla / TruncFormats.tla: a file is a sequence of typed cells with byte spans; Cut(k) is a crash action; the allowed "
+          "outcome set of a prefix (error, or the complete mesh only if every data cell is wholly present, or the fully contained "
+          "splats for .splat) is computed by TLC; AsciiReader.tla reproduces the zero-filled-vertex and face-loop hang counterexamples "
+          "of the pinned reader at design level. Independent encoders produce valid PLY (3 encodings), STL, SPZ, PTS and .splat files "
+          "with cell spans; every byte offset (binary) / token boundary and header byte (ASCII) is cut and decoded by the real readers "
+          "under a deadline; TraceTrunc.tla judges each (file, cut, outcome)."),
+    note=("Trusted base: TLC; independent encoders with cell spans (harness/refenc); termination observed with a wall-clock deadline "
+          "(auxiliary observer); a panic counts as not reporting an error."),
+    design="3/C14 and NOTES-trunc.md", category="model_checking", technique="TLA+ crash-point model + exhaustive cut enumeration + TLC trace validation")
+CHECKS["C15"] = dict(
+    text=("SplatFormat.tla: .splat record layout and round-trip tolerance predicates in integer units; SPZ header and planar layout law "
+          "Off(field,i,c) for versions 1/2, SH degrees 0-3, fractional bits, with TLC checking that the fields tile the stream; packed "
+          "streams with distinct bytes and sign patterns are decoded by the real spz.Read and every decoded field is compared with the "
+          "dequantisation of the byte the law names; .splat write/read and splat-PLY export are judged by TraceSplat.tla."),
+    note="Trusted base: TLC; independent .splat/PLY parsers and SPZ stream builder; gzip framing from the standard library.",
+    design="3/C15 and NOTES-trunc.md", technique="TLA+ layout law + TLC-generated streams + TLC trace validation")
+
 NOT_APPLICABLE = []
 
 
